@@ -1280,15 +1280,18 @@ impl ErasedNode for Node {
         let child2_pci_ = child2.parent_child_indices();
         let mut parent_pci = parent_pci_.borrow_mut();
         let mut child1_pci = child1_pci_.borrow_mut();
-        let mut child2_pci = child2_pci_.borrow_mut();
+        /* The two edges may lead to the same child (two dependencies on one node): its index
+        cell must then be borrowed only once. */
+        let same_child = child1.ptr_eq(&**child2);
+        let mut child2_pci = if same_child { None } else { Some(child2_pci_.borrow_mut()) };
 
         let index_of_parent_in_child1 = parent_pci.my_parent_index_in_child_at_index[child_index1 as usize];
         let index_of_parent_in_child2 = parent_pci.my_parent_index_in_child_at_index[child_index2 as usize];
         debug_assert_eq!(child1_pci.my_child_index_in_parent_at_index[index_of_parent_in_child1 as usize], child_index1);
-        debug_assert_eq!(child2_pci.my_child_index_in_parent_at_index[index_of_parent_in_child2 as usize], child_index2);
+        debug_assert_eq!(child2_pci.as_ref().unwrap_or(&child1_pci).my_child_index_in_parent_at_index[index_of_parent_in_child2 as usize], child_index2);
         /* now start swapping */
         child1_pci.my_child_index_in_parent_at_index[index_of_parent_in_child1 as usize] = child_index2;
-        child2_pci.my_child_index_in_parent_at_index[index_of_parent_in_child2 as usize] = child_index1;
+        child2_pci.as_mut().unwrap_or(&mut child1_pci).my_child_index_in_parent_at_index[index_of_parent_in_child2 as usize] = child_index1;
         parent_pci.my_parent_index_in_child_at_index[child_index1 as usize] = index_of_parent_in_child2;
         parent_pci.my_parent_index_in_child_at_index[child_index2 as usize] = index_of_parent_in_child1;
     }
